@@ -12,6 +12,10 @@ RULE = (
     "naming and for no response; every invalid left-hand side (sum, product, nesting, interaction, group term, "
     "offset, literal) must be refused.  A case is one (response form, rhs, frame); non-trivial: categorical or "
     "y[level] or prop response"
+    '  Added: digit-only level names, an int64 response above 2^53 (exact), int8 successes, literal-only '
+    'right-hand sides, one- and two-row frames, single-level / empty-level / blank-level categorical '
+    'responses, one model description evaluated by DesignMatrices on two frames and with two Environment '
+    'objects. '
 )
 ASSUMPTIONS = ["'y - z ~ x' and 'y + y ~ x' reduce to the single term y by the term algebra and are not treated as multi-term responses"]
 
